@@ -144,3 +144,20 @@ func (i *Snapshot) VerifFileSegmentIDs() []uint64 {
 	}
 	return rv
 }
+
+// VerifSnapshotItem returns the item writer (a *Snapshot) for the given
+// segment entries, as the persister would hand it to Directory.Persist.
+func VerifSnapshotItem(epoch uint64, segs []VerifSegInfo) WriterTo {
+	snap := &Snapshot{epoch: epoch}
+	for _, si := range segs {
+		ss := &segmentSnapshot{
+			id:      si.ID,
+			segment: &segmentWrapper{Segment: &verifStubSegment{typ: si.Type, ver: si.Version}, refCounter: noOpRefCounter{}},
+		}
+		if si.HasDeleted {
+			ss.deleted = roaring.BitmapOf(si.Deleted...)
+		}
+		snap.segment = append(snap.segment, ss)
+	}
+	return snap
+}
